@@ -1,4 +1,4 @@
-import sys; sys.path.insert(0,'/tmp/fixes'); from edit import rep
+import sys; sys.path.insert(0,'/verif/tools'); from edit import rep
 rep('segno/encoder.py', """    if version in (consts.VERSION_M1, consts.VERSION_M3):
         write([0] * (capacity - length))
     else:""", """    if version in (consts.VERSION_M1, consts.VERSION_M3):
